@@ -167,6 +167,10 @@ def all_variants():
                     # must read back as NaN / NaT next to the untouched old rows (masked Float <NA> is lowered to NaN the same way)
                     for fam in SENTINEL_FAMILIES:
                         add("sentinel_ok", "ok", pos=pos, rg=rg, family=fam)
+                    # a value that cannot be encoded as declared, for datetimes: a date OUTSIDE the range of the stored unit (the column
+                    # stores nanoseconds: 1677-09-21 .. 2262-04-11) in a frame of a coarser unit - must end in an exception, dataset as before
+                    for fam in DT_RANGE_FAMILIES:
+                        add("dt_out_of_range", "late", pos=pos, rg=rg, family=fam)
                 add("codec_col", "late", pos=pos)
                 add("bad_dtype", "late", pos=pos)
             add("dup_col", "validation")
@@ -245,6 +249,7 @@ def all_variants():
     return out
 
 
+DT_RANGE_FAMILIES = ["us/future", "us/past", "ms/future", "ms/past", "s/future", "s/past"]
 SENTINEL_FAMILIES = ["float64_nan", "float32_nan", "Float64", "Float32", "nat_ns", "nat_us"]
 def _lattice():
     import itertools
@@ -401,7 +406,7 @@ def build(v, rng, sid):
         r = later_row()
         [f for f in frame1 if f[0] == "s"][0][2][r] = None
         bad_rows = [r]
-    elif kind in ("na_nonnull", "sentinel_ok"):
+    elif kind in ("na_nonnull", "sentinel_ok", "dt_out_of_range"):
         r = later_row()
         bad_rows = [r]
     elif kind == "io_fault":
@@ -461,6 +466,15 @@ def build(v, rng, sid):
             col[1], col[2] = dt, vals(len(col[2]))
         [f for f in frame1 if f[0] == "b"][0][2][bad_rows[0]] = float("nan") if (fam == base and base.startswith("float")) else None
         oe0 = {"b": "utf8", "s": "utf8"} if fam == "string" else None
+    if kind == "dt_out_of_range":
+        unit, where = v["family"].split("/")
+
+        def dvals(n):
+            return ["2020-01-%02dT00:00:%02d" % (rng.randrange(1, 28), rng.randrange(60)) for _ in range(n)]
+        for fr, dt in ((frame0, "datetime64[ns]"), (frame1, "datetime64[%s]" % unit)) + (((prior["frame"], "datetime64[ns]"),) if prior else ()):
+            col = [f for f in fr if f[0] == "b"][0]
+            col[1], col[2] = dt, dvals(len(col[2]))
+        [f for f in frame1 if f[0] == "b"][0][2][bad_rows[0]] = "9999-12-31T00:00:00" if where == "future" else "1000-01-01T00:00:00"
     return {"drop_summary": no_summary, "object_encoding0": oe0,"id": sid, "variant": v, "scheme": scheme, "partition_on": list(pon), "frame0": frame0, "offsets0": off0, "prior": prior,
             "compression0": rng.choice([None, None, "GZIP"]),
             "api": api, "kwargs": kw, "frame1": frame1, "bad_rows": bad_rows}
@@ -546,7 +560,7 @@ def plan_files(sc, df1):
 
 
 # refusals that are decided by the appended frame / codec itself, i.e. also refused by ParquetFile.write_row_groups
-CONT_KINDS = {"cols_extra", "cols_missing", "cols_renamed", "nontext_col", "dup_col", "bad_value", "none_nonnull", "na_nonnull", "bad_dtype",
+CONT_KINDS = {"dt_out_of_range", "cols_extra", "cols_missing", "cols_renamed", "nontext_col", "dup_col", "bad_value", "none_nonnull", "na_nonnull", "bad_dtype",
               "codec_col", "codec_all", "bad_value_many_parts", "codec_all_many_parts"}
 
 
@@ -859,7 +873,9 @@ def run(ctx):
         if res.get("setup_fallback"):
             ctx.count("setup_fallback", res["setup_fallback"][:60])
         ctx.count("position", "%s/%s" % (v.get("pos"), v.get("rg")))
-        if v.get("family") and v["kind"] == "sentinel_ok":
+        if v.get("family") and v["kind"] == "dt_out_of_range":
+            ctx.count("date_outside_the_stored_range", "%s/%s/%s" % (v["family"], v["pos"], v["rg"]))
+        elif v.get("family") and v["kind"] == "sentinel_ok":
             ctx.count("sentinel_cell_in_required_column", "%s/%s/%s" % (v["family"], v["pos"], v["rg"]))
         elif v.get("family") and v["kind"] == "na_nonnull":
             ctx.count("missing_value_in_required_column", "%s/%s/%s" % (v["family"], v["pos"], v["rg"]))
